@@ -1,3 +1,4 @@
+import math
 import numbers
 from enum import Enum
 from abc import abstractmethod
@@ -71,6 +72,10 @@ class Type:
         if self.is_array:
             return False
         if self.is_numeric and isinstance(value, numbers.Number):
+            if isinstance(value, float) and not math.isfinite(value):
+                # infinities and NaN are no values of any type: a
+                # result that becomes one is an overflow
+                return False
             if self._type == BuiltinType.INTEGER:
                 return -32768 <= value <= 32767
             elif self._type == BuiltinType.LONG:
@@ -497,6 +502,18 @@ class ParenthesizedExpr(Expr):
         return self.child.eval()
 
 
+def power(a, b):
+    """a ^ b. Raises OverflowError for a result that is too large for
+    any numeric type (without computing the exact, possibly
+    astronomically long, integral value first) and ZeroDivisionError
+    for zero to a negative power; the result is complex for a negative
+    number to a fractional power."""
+    if isinstance(a, int) and isinstance(b, int) and \
+       b > 0 and abs(a) > 1 and b * math.log2(abs(a)) > 1100:
+        raise OverflowError
+    return a ** b
+
+
 class NumericLiteral(Expr):
     child_fields = []
     is_literal = True
@@ -766,7 +783,7 @@ class BinaryOp(Expr):
             Operator.DIV: lambda a, b: a / b,
             Operator.MOD: qb_mod,
             Operator.INTDIV: qb_idiv,
-            Operator.EXP: lambda a, b: a ** b,
+            Operator.EXP: power,
         }[self.op](left, right)
 
         if isinstance(result, complex) or \
